@@ -322,6 +322,7 @@ func (m *multiPacketListener) Acquire() (net.PacketConn, error) {
 				verifPoint("packet.fanout.received")
 				select {
 				case req := <-readCh:
+					verifPoint("packet.fanout.beforeRespond")
 					n := copy(req.buffer, pkt)
 					req.respCh <- struct {
 						n    int
